@@ -58,8 +58,9 @@ def run(pid, tier, seed):
     cfg = cfgs[m["cfg"]]
     step = next((s for s in m["steps"] if s["route"] == where), {})
     nondef = sorted(step.get("diff", []))
+    functional = [f for f in nondef if f not in roundtrip.NON_FUNCTIONAL]       # identity: the fields that can change outputs
     ident = {"direction": "print" if where in ("RT_Str", "RT_StrMut") else "text", "class": cfg["cls"], "clause": clause,
-             "fields": nondef, "list_valued_option": any(str(v).startswith("l:") for v in cfg["opts"].values()),
+             "fields": functional if functional else nondef, "list_valued_option": any(str(v).startswith("l:") for v in cfg["opts"].values()),
              "array_alpha": str(cfg["opts"].get("alpha", "")).startswith("v:")}
     key = json.dumps([ident, m["cfg"], where])
     if key in seen:
